@@ -41,7 +41,7 @@ BAD_VARIANTS = ["keep-unloaded", "keep-empty", "no-sort", "lose-row", "cie-not-r
 
 def model_check(ctx, cov):
     runs, states, trans = [], 0, 0
-    cfgs = [("mc/EhFrame_quick.cfg", 900)] + ([] if ctx.quick else [("mc/EhFrame_thorough.cfg", 2400)])
+    cfgs = [("mc/EhFrame_quick.cfg", 900), ("mc/EhFrame_quick_empty.cfg", 600)] + ([] if ctx.quick else [("mc/EhFrame_thorough.cfg", 2400)])
     for cfg, to in cfgs:
         r = tlc.run_tlc("MCEhFrame", cfg, workers=8, timeout=to, name=f"c10.{Path(cfg).stem}")
         runs.append({"cfg": cfg, **r.summary()})
@@ -57,12 +57,15 @@ def model_check(ctx, cov):
             raise ToolError(f"vacuous model run {cfg}: actions never taken: {missing}")
         states += r.distinct
         trans += r.generated
-    for v in BAD_VARIANTS:
-        r = tlc.run_tlc("MCEhFrame", f"mc/EhFrame_bad_{v}.cfg", workers=4, timeout=600, coverage=False, name=f"c10.bad.{v}")
-        if r.ok or r.violated != "DoneTablesOK":
-            raise ToolError(f"broken writer '{v}' was NOT rejected: predicates are vacuous\n" + r.out[-1500:])
-        m = [ln for ln in r.out.splitlines() if "MODEL-FAIL" in ln]
-        runs.append({"cfg": f"mc/EhFrame_bad_{v}.cfg", "expected_violation": r.violated, "predicate": m[0] if m else ""})
+    def bad(v):
+        return v, tlc.run_tlc("MCEhFrame", f"mc/EhFrame_bad_{v}.cfg", workers=2, timeout=600, coverage=False, name=f"c10.bad.{v}")
+
+    with ThreadPoolExecutor(max_workers=5) as ex:
+        for v, r in ex.map(bad, BAD_VARIANTS):
+            if r.ok or r.violated != "DoneTablesOK":
+                raise ToolError(f"broken writer '{v}' was NOT rejected: predicates are vacuous\n" + r.out[-1500:])
+            m = [ln for ln in r.out.splitlines() if "MODEL-FAIL" in ln]
+            runs.append({"cfg": f"mc/EhFrame_bad_{v}.cfg", "expected_violation": r.violated, "predicate": m[0] if m else ""})
     cov["states"], cov["transitions"], cov["tlc_runs"] = states, trans, runs
 
 
